@@ -96,6 +96,7 @@ CONFIGS = [
     Config("enum_exact_noopt", lambda: get_algorithm(Algorithm.EXACT, {"optimize": False}), BOTH, exact=True,
            family="exact"),
     Config("parcons_default", lambda: ParCons(), BOTH, family="parcons"),
+    Config("parcons_b2", lambda: ParCons(bound_for_exact=2), ("absent",), family="parcons"),
     Config("enum_parcons", lambda: get_algorithm(Algorithm.PARCONS), BOTH, family="parcons"),
     Config("enum_parcons_copeland_b2", lambda: get_algorithm(Algorithm.PARCONS, {
         "auxiliary_algorithm": CopelandMethod(), "bound_for_exact": 2}), BOTH, family="parcons"),
